@@ -41,8 +41,9 @@ Full statement / proved / missing
                        `'n'`, `Optional['n']`, `NotUndef['n']`, chosen by `StructType.Parameters` from the optionality of
                        the key and from whether the value type accepts `undef` — `Ty.acceptsUndef` —; any member name,
                        duplicate names, the empty Struct), Runtime['rt', 'name', Regexp[/…/]] (every form that prints
-                       invertibly), TypeReference['…'] (every string), the default Callable — arbitrarily nested, all
-                       Int64 bounds, all string contents.
+                       invertibly), TypeReference['…'] (every string), Callable[p…, lo, hi, block] and
+                       Callable[[p…, lo, hi, block], ret] in every shape that prints invertibly (`CallableShape`: see
+                       below) — arbitrarily nested, all Int64 bounds, all string contents.
                        The full statement `C05_type_roundtrip_full` (over the whole `Ty`) is false exactly at the
                        property's stated exception: `C05_exact_string_prints_plain`.
                        Float bounds: decimal float conversion is NOT modelled; the theorem assumes of it exactly `FloatIO`
@@ -50,12 +51,16 @@ Full statement / proved / missing
                        lexes as one float token and the reader oracle (`env.pf` = `strconv.ParseFloat`) maps it back to
                        `b`.  The lexing half is a theorem for `D+.D+` texts (`nextToken_simple_float`); the driver's
                        reader is the exact `parseFloat`, its formatter is the implementation's own text (op-line oracle).
-                       Modelled and compared with the implementation on every run, but NOT yet inside the theorem:
-                       Callable with parameters (the creator `newCallableType3` + `tupleFromArgs(true, …)` and
-                       `CallableType.Parameters` are modelled in full, degenerate forms included; note that
-                       `CallableType.Equals` answers true for ANY two Callables — `Ty.eqGo` — so on the implementation the
-                       "equal type" half of the property is vacuous for Callable and only "prints the same text again" has
-                       content), unknown type names (they resolve to a TypeReference), the second spellings of core names.
+                       Callable: the creator `newCallableType3` + `tupleFromArgs(true, …)` and `CallableType.Parameters`
+                       are modelled in full, degenerate forms included.  `CallableShape` carves out exactly the shapes that
+                       print invertibly; outside it the statement is FALSE of the code (known finding C05-callable-block;
+                       witnesses `C05_callable_unit_dropped`, `C05_callable_leading_tuple`).  Note that
+                       `CallableType.Equals` answers true for ANY two Callables (`Ty.eqGo`): on the implementation the
+                       "equal type" half of the property is vacuous for Callable; the theorem here proves structural
+                       equality, which is stronger.
+                       Modelled and compared on every run but outside the theorem's quantifier: unknown type names (they
+                       resolve to a TypeReference) and the second spellings of core names — both resolve to types that are
+                       inside it.
                        Missing (no theorem and no model; direct predicate on the implementation only): Runtime, Init, Like, Object, TypeSet, aliases, TypeReference and the leaf
                        types with parameters (known findings C05-leaf-type-params, -lazy-type, -nominal-type,
                        -callable-block).
@@ -228,6 +233,62 @@ example : WFTy envEx sampleNominal := by
   decide
 example : parseType envEx (syms (printTy sampleNominal)) = some sampleNominal :=
   C05_type_roundtrip_partial envEx sampleNominal (by simp only [sampleNominal, WFTy, WFTys, WFMs, envEx]; decide)
+
+/-- non-vacuity: Callables in every invertible shape — sizes only, `Unit` + size, parameter types with and without size,
+    block, optional block, return type (the parameters then in an array, where a leading Tuple and the default Tuple are
+    fine), nested in each other and in the old forms -/
+def sampleCallables : List Ty :=
+  [.callable (some ([], some (0, 0))) none none,
+   .callable (some ([tyUnit], some (1, 2))) none none,
+   .callable (some ([tyUnit], some (0, 9223372036854775807))) none (some (.callable none none none)),
+   .callable (some ([tyString, .int 0 5], none)) none none,
+   .callable (some ([tyString], some (1, 9223372036854775807))) none (some (.wrap .optional (.callable none none none))),
+   .callable (some ([], some (0, 9223372036854775807))) (some (.named "Undef".toList)) none,
+   .callable (some ([], some (0, 9223372036854775807))) none (some (.callable (some ([tyString], none)) none none)),
+   .callable (some ([.tuple [tyString] none, .callable none none none], none)) (some (.int 0 1))
+     (some (.callable (some ([], some (0, 0))) none none)),
+   .struct [(['f'], false, .callable (some ([.struct [(['a'], true, tyAny)]], some (0, 1))) (some tyAny) none)],
+   .array (.callable (some ([.callable none none none, tyString], none)) none none) 0 3]
+theorem sampleCallables_wf : ∀ t ∈ sampleCallables, WFTy envEx t := by
+  intro t ht
+  simp only [sampleCallables, List.mem_cons, List.mem_nil_iff, or_false] at ht
+  rcases ht with rfl | rfl | rfl | rfl | rfl | rfl | rfl | rfl | rfl | rfl <;>
+    (simp only [WFTy, WFTys, WFMs, WFOpt, CallableShape, sizeOK, inI64, i64min, i64max, tyUnit, tyString, tyAny, envEx]
+     decide)
+example : ∀ t ∈ sampleCallables, parseType envEx (syms (printTy t)) = some t :=
+  fun t ht => C05_type_roundtrip_partial envEx t (sampleCallables_wf t ht)
+example : sampleCallables.map printTy =
+    ["Callable[0, 0]", "Callable[1, 2]", "Callable[0, default, Callable]", "Callable[String, Integer[0, 5]]",
+     "Callable[String, 1, default, Optional[Callable]]", "Callable[[], Undef]", "Callable[Callable[String]]",
+     "Callable[[Tuple[String], Callable, Callable[0, 0]], Integer[0, 1]]",
+     "Struct[{'f' => Callable[[Struct[{'a' => Any}], 0, 1], Any]}]", "Array[Callable[Callable, String], 0, 3]"].map
+      String.toList := by decide +kernel
+
+/-- outside `CallableShape` the round trip fails (known finding C05-callable-block): a `Unit` parameter is not printed, so
+    the text is that of the Callable without it … -/
+theorem C05_callable_unit_dropped :
+    parseType envEx (syms (printTy (.callable (some ([tyString, tyUnit], none)) none none))) =
+      some (.callable (some ([tyString], none)) none none) := by
+  have e : printTy (.callable (some ([tyString, tyUnit], none)) none none) =
+      printTy (.callable (some ([tyString], none)) none none) := by decide +kernel
+  rw [e]
+  exact C05_type_roundtrip_partial envEx _ (by
+    simp only [WFTy, WFTys, WFOpt, CallableShape, sizeOK, tyString, envEx]; decide)
+/-- … and a leading Tuple parameter is read back as the whole parameter Tuple, the second parameter as the block:
+    `Callable[Tuple[String], Callable]` resolves to the Callable that prints `Callable[String, Callable]` -/
+theorem C05_callable_leading_tuple :
+    parseType envEx (syms (printTy (.callable (some ([.tuple [tyString] none, .callable none none none], none)) none none))) =
+      some (.callable (some ([tyString], none)) none (some (.callable none none none))) := by
+  have hts : WFTys envEx [.tuple [tyString] none, .callable none none none] := by
+    simp only [WFTys, WFTy, tyString, envEx]; decide
+  have hexpr : tyExpr (.callable (some ([.tuple [tyString] none, .callable none none none], none)) none none) =
+      tname .callable (tyExprs [.tuple [tyString] none, .callable none none none]) := by
+    simp [tyExpr, tyExprsNU, tyExprs, tyExprOpt, callableVal, tupleSizeVals, Ty.isUnit]
+  have hlit := lit_tname envEx .callable _ (litL_tyExprs envEx _ hts)
+  unfold parseType printTy
+  rw [hexpr, C05_value_roundtrip envEx _ hlit]
+  simp only [resolve_tname, tyExprs_isEmpty, resolveArgs_tyExprs envEx _ hts]
+  simp [createK, callableCreate, callableTupleForm, argTy]
 
 /-- the four key forms of a Struct member: optional key + value accepting `undef` and required key + value refusing it
     print the bare name; the other two need `Optional['n']` / `NotUndef['n']` -/
